@@ -386,6 +386,23 @@ def mutate_with_retry(o, ft, op, in_batch, db, Mset, allowed, asked, check_exc, 
                 o.viol("C07", "other_exception", f"{op[0]} raised {type(e).__name__} with node bodies absent", call=op[0], key=k, exc=repr(e)[:160])
                 return False
     outer_before = state_of(ft)
+    # abort probe: the same operations in a batch whose failure (or a deliberate abort) escapes the `with`:
+    # the outer trie -- root, database, reference counts, pending prunes -- must be exactly as before
+    try:
+        with ft.squash_changes() as b:
+            if pre_op is not None:
+                apply_op(b, {}, pre_op)
+            apply_op(b, {}, op)
+            raise _Abort()
+    except (MissingTrieNode, _Abort):
+        if state_of(ft) != outer_before:
+            o.viol("C07", "failed_call_changed_state", "a batch left by an exception (MissingTrieNode or an abort after its operations) changed the outer trie's root, "
+                   "database, reference counts or pending prunes", call=op[0], key=k, in_batch=True, pre_op=list(pre_op) if pre_op else None)
+            return False
+    except Exception as e:  # noqa
+        o.viol("C07", "other_exception", f"aborted batch with {op[0]} raised {type(e).__name__} with node bodies absent", call=op[0], key=k, exc=repr(e)[:160])
+        return False
+    outer_fixed = outer_before[0:1] + outer_before[2:]  # root, reference counts, pending prunes: fixed until the batch commits
     try:
         with ft.squash_changes() as b:
             while pre_op is not None:
@@ -393,6 +410,10 @@ def mutate_with_retry(o, ft, op, in_batch, db, Mset, allowed, asked, check_exc, 
                 try:
                     apply_op(b, {}, pre_op)
                     outer_before = state_of(ft)
+                    if outer_before[0:1] + outer_before[2:] != outer_fixed:
+                        o.viol("C07", "failed_call_changed_state", "an operation inside squash_changes changed the outer trie's root, reference counts or pending prunes "
+                               "before the batch was committed", call=pre_op[0], key=pre_op[1], in_batch=True)
+                        raise _Stop()
                     break
                 except MissingTrieNode as e:
                     h = bytes(e.missing_node_hash)
@@ -429,6 +450,10 @@ def mutate_with_retry(o, ft, op, in_batch, db, Mset, allowed, asked, check_exc, 
 
 
 class _Stop(Exception):
+    pass
+
+
+class _Abort(Exception):
     pass
 
 
